@@ -5,6 +5,7 @@ CONSTANTS
   MaxOps = 2
   OpsAllowed <- WaitOps
   Busy = 2
+  CallbackKinds <- MCKinds
 INVARIANT CallbacksOnce
 INVARIANT WaitTiming
 PROPERTY Final
